@@ -40,6 +40,8 @@ def step (d : D) (ws : List String) : D × String :=
   if d.files.isEmpty && (ws.headD "" == "truncall" || ws.headD "" == "flipall" || ws.headD "" == "engtrunc" || ws.headD "" == "engcutrec" || ws.headD "" == "engflip") then
     (d, "noseal")
   else
+  -- `… full`: the same cut with a newest log file that recovery does not reuse (wal_max_size reached): same expected state
+  let ws := if ws.getLast? == some "full" && (ws.headD "" == "engtrunc" || ws.headD "" == "engcutrec") then ws.dropLast else ws
   match ws with
   | ["seal"] =>
     let fs := d.log.files
